@@ -121,7 +121,7 @@ def baseline(name, threads):
         try:
             s = sched.Sched([thread_fn(g, texpr, action)], {})
             res = s.run()
-            out.append((res[0], s.points[0]))
+            out.append((res[0], s.points[0], s.trace[0]))
         finally:
             realfn.unload(g)
     return out
@@ -234,7 +234,15 @@ def explore(arg):
             ps = allp
         else:
             # the first points are the attribute access itself (descriptor caches), always taken
-            ps = sorted(set(evenly(allp, 90, seed)) | set(evenly(sorted(win), 60, seed)) | set(allp[:120]))
+            # ... and so is the first visit of every distinct source line (a race needs a particular place in the code far
+            # more often than a particular moment)
+            seen, firsts = set(), []
+            for i, loc in enumerate(base[0][2]):
+                if loc not in seen:
+                    seen.add(loc)
+                    firsts.append(i + 1)
+            st.extra['distinct_lines_thread0'] += len(firsts)
+            ps = sorted(set(evenly(allp, 90, seed)) | set(evenly(sorted(win), 60, seed)) | set(allp[:120]) | set(firsts))
         for p in ps:
             if p % nchunks == chunk:
                 run_schedule(name, threads, {(0, p): 1}, expected, st, 'one-preemption')
